@@ -88,6 +88,10 @@ def run(ctx):
         k = 1 + trng.below(3)
         sc = "%d %s" % (k, " ".join("%d 1 %d" % (trng.choice([1, 2]), trng.below(3)) for _ in range(k)))
         tl.append("%s 0 %s %s" % (_gen.cfg_line(c), vlib.mat_line(M), sc))
+    # re-completion histories on general trees: a subtree is reset and decomposed again (ops 1..4 of the script); whatever the
+    # first decomposition left in the nodes must not leak into the second one (every node must still recompose)
+    gen_tl = [l for l in _c03.tree_lines(ctx, "c19") if _c03.script_ops(l)]
+    tl += gen_tl[:(4000 if ctx.quick else 60000)]
     ctx.stream("tree", tl, "node matrices stay untouched: sign-scrambled R10 supports with re-completion scripts",
                describe=lambda c: _c03.CODES.get(c, str(c)), ignore_codes=tuple(_c03.FLAGS), keyfn=_c03.keyfn)
     pool = Pool(ctx, 25 if ctx.quick else 200)
